@@ -173,7 +173,7 @@ pub fn run_scenario(sc: &Scenario<'_>, tr: &mut Trace) -> End {
         Matter::new(&TEST_DEV_DET, TEST_DEV_COMM, &TEST_DEV_ATT, 5540),
     ];
     let mut fab_idx = [None; 3];
-    if sc.with_fabric {
+    if sc.with_fabric || sc.fill_busy + sc.fill_idle > 0 {
         let kit = make_fabric(&[DEV_NODE, 0x1001, 0x1002, 0x1003]);
         install_fabric(&dev, &kit, 0);
         for (i, m) in inis.iter().enumerate() {
@@ -185,7 +185,10 @@ pub fn run_scenario(sc: &Scenario<'_>, tr: &mut Trace) -> End {
     let mut filler_ids: Vec<(u32, bool)> = Vec::new();
     for k in 0..(sc.fill_busy + sc.fill_idle) {
         let mut s = ReservedSession::reserve_now(&dev, &crypto).unwrap();
-        s.update(DEV_NODE, 0x9000 + k as u64, 900 + k as u16, 900 + k as u16, sim::addr(3), SessionMode::Pase { fab_idx: 0 }, None, None, None, None).unwrap();
+        // operational sessions of some other controllers (not touched by the PASE clean-up on fail-safe expiry)
+        let far = rs_matter::transport::network::Address::Udp(rs_matter::transport::network::SocketAddr::V6(rs_matter::transport::network::SocketAddrV6::new(
+            rs_matter::transport::network::Ipv6Addr::new(0xfd00, 0, 0, 0, 0, 0, 0x99, 1 + k as u16), 6000 + k as u16, 0, 0)));
+        s.update(DEV_NODE, 0x9000 + k as u64, 900 + k as u16, 900 + k as u16, far, SessionMode::Case { fab_idx: NonZeroU8::new(1).unwrap(), cat_ids: Default::default() }, None, None, None, None).unwrap();
         s.complete();
         drop(s);
         let id = dev.with_state(|st| st.verif_snapshot().sessions.sessions.iter().find(|x| x.local_sess_id == 900 + k as u16).unwrap().id);
@@ -222,10 +225,13 @@ pub fn run_scenario(sc: &Scenario<'_>, tr: &mut Trace) -> End {
     let mail: [RefCell<VecDeque<Cmd>>; 3] = Default::default();
     let mail_wakers: [RefCell<Option<Waker>>; 3] = Default::default();
     let running: [Cell<bool>; 3] = Default::default();
+    let last_ok: [Cell<bool>; 3] = Default::default();
+    let last_code: [RefCell<String>; 3] = Default::default();
     let filters: [RefCell<Filter>; 3] = Default::default();
 
     let initiator = |i: usize| {
         let (m, mail, mw, running, ev, crypto, filters) = (&inis[i], &mail[i], &mail_wakers[i], &running[i], &ev, &crypto, &filters[i]);
+        let (last_ok, last_code) = (&last_ok[i], &last_code[i]);
         let fab = fab_idx[i];
         async move {
             loop {
@@ -239,6 +245,9 @@ pub fn run_scenario(sc: &Scenario<'_>, tr: &mut Trace) -> End {
                 .await;
                 running.set(true);
                 // the attempt begins now: its network filter and its description
+                let is_probe = match &cmd {
+                    Cmd::Pase { start, .. } | Cmd::Case { start, .. } => start["probe"] == true,
+                };
                 match &cmd {
                     Cmd::Pase { filter, start, .. } | Cmd::Case { filter, start, .. } => {
                         *filters.borrow_mut() = filter.clone();
@@ -257,9 +266,11 @@ pub fn run_scenario(sc: &Scenario<'_>, tr: &mut Trace) -> End {
                     }
                     .await),
                 };
+                last_ok.set(r.is_ok());
+                *last_code.borrow_mut() = r.as_ref().err().map(|e| format!("{:?}", e.code())).unwrap_or_default();
                 running.set(false);
                 filters.borrow_mut().active = false;
-                ev(json!({"ev": "IniEnd", "i": i + 1, "tag": tag, "ok": r.is_ok(), "code": r.err().map(|e| format!("{:?}", e.code())).unwrap_or_default()}));
+                ev(json!({"ev": "IniEnd", "i": i + 1, "tag": tag, "probe": is_probe, "ok": r.is_ok(), "code": r.err().map(|e| format!("{:?}", e.code())).unwrap_or_default()}));
             }
             #[allow(unreachable_code)]
             ()
@@ -281,6 +292,9 @@ pub fn run_scenario(sc: &Scenario<'_>, tr: &mut Trace) -> End {
     let mut settle_deadline: Option<u64> = None;
     let mut tagc = 0u32;
     let mut step_tries = 0usize;
+    let mut probe: Option<(usize, usize, u64, usize, usize)> = None;
+    let mut probe_kind = "pase";
+    let mut garbage_ctr = 7000u32;
     let mut held_q: Vec<(u64, sim::Dgram)> = Vec::new();
     let mut out: Vec<Value> = Vec::new();
     let filler_set: Vec<u32> = filler_ids.iter().map(|x| x.0).collect();
@@ -441,6 +455,36 @@ pub fn run_scenario(sc: &Scenario<'_>, tr: &mut Trace) -> End {
             }
             settle_deadline = None;
         }
+        // ---- a probe in progress: a legitimate handshake, retried a few times ----
+        if let Some((pi, tries_left, gap, used, busy)) = probe.take() {
+            if running[pi - 1].get() {
+                probe = Some((pi, tries_left, gap, used, busy));
+                return match (sim::next_timer_ms(), next_held) {
+                    (Some(t), Some(hh)) if hh < t => Step::AdvanceMs(hh.saturating_sub(sim::now_ms()).max(1)),
+                    (None, Some(hh)) => Step::AdvanceMs(hh.saturating_sub(sim::now_ms()).max(1)),
+                    (None, None) => Step::AdvanceMs(100),
+                    _ => Step::NextTimer,
+                };
+            }
+            let ok = used > 0 && last_ok[pi - 1].get();
+            if ok || tries_left == 0 {
+                tr.ev(json!({"ev": "ProbeEnd", "i": pi, "ok": ok, "tries": used, "last_code": last_code[pi - 1].borrow().clone(), "t": sim::now_ms()}));
+            } else {
+                tagc += 1;
+                let start = json!({"ev": "Start", "i": pi, "tag": tagc, "kind": probe_kind, "pass_ok": true, "cut": -1, "garbled": false, "complete": true, "probe": true});
+                let filter = Filter { active: true, ..Default::default() };
+                mail[pi - 1].borrow_mut().push_back(if probe_kind == "pase" { Cmd::Pase { pass: PASSCODE, tag: tagc, filter, start } } else { Cmd::Case { peer: DEV_NODE, tag: tagc, filter, start } });
+                running[pi - 1].set(true);
+                if let Some(w) = mail_wakers[pi - 1].borrow_mut().take() {
+                    w.wake();
+                }
+                probe = Some((pi, tries_left - 1, gap, used + 1, busy));
+                if used > 0 {
+                    wait_until = Some(sim::now_ms() + gap);
+                }
+                return Step::Poll;
+            }
+        }
         // ---- next scripted operation ----
         if opi >= sc.ops.len() {
             return Step::Stop;
@@ -528,6 +572,46 @@ pub fn run_scenario(sc: &Scenario<'_>, tr: &mut Trace) -> End {
                 tr.ev(json!({"ev": "Cancel", "t": sim::now_ms()}));
                 Step::Poll
             }
+            "Probe" => {
+                let i = op["i"].as_u64().unwrap_or(3) as usize;
+                probe_kind = if op["kind"] == "case" { "case" } else { "pase" };
+                probe = Some((i, op["tries"].as_u64().unwrap_or(3) as usize, op["gap_ms"].as_u64().unwrap_or(2000), 0, 0));
+                // slots a new handshake could use: free ones and idle (evictable) sessions
+                let usable = dev.with_state(|st| {
+                    let s = st.verif_snapshot();
+                    16usize.saturating_sub(s.sessions.sessions.iter().filter(|x| x.reserved || !x.exchanges.is_empty()).count())
+                });
+                tr.ev(json!({"ev": "ProbeStart", "i": i, "kind": probe_kind, "usable": usable, "t": sim::now_ms()}));
+                Step::Poll
+            }
+            "Garbage" => {
+                // an unsecured datagram from initiator i's address: a first handshake message with a rubbish payload,
+                // a status report, or rubbish bytes
+                let i = op["i"].as_u64().unwrap() as usize;
+                let kind = op["kind"].as_str().unwrap_or("pbkdf");
+                garbage_ctr += 1;
+                let data = if kind == "random" {
+                    (0..40u8).map(|k| k.wrapping_mul(37).wrapping_add(garbage_ctr as u8)).collect()
+                } else {
+                    let mut hdr = rs_matter::transport::packet::PacketHdr::new();
+                    hdr.plain.sess_id = 0;
+                    hdr.plain.ctr = garbage_ctr;
+                    hdr.plain.set_src_nodeid(Some(0x7000 + garbage_ctr as u64));
+                    hdr.proto.exch_id = garbage_ctr as u16;
+                    hdr.proto.proto_id = 0;
+                    hdr.proto.proto_opcode = match kind { "pbkdf" => 0x20, "sigma1" => 0x30, "pake1" => 0x22, "sigma3" => 0x32, _ => 0x40 };
+                    hdr.proto.set_initiator();
+                    hdr.proto.set_reliable();
+                    let mut buf = vec![0u8; 256];
+                    let mut wb = rs_matter::utils::storage::WriteBuf::new(&mut buf);
+                    wb.reserve(rs_matter::transport::packet::PacketHdr::HDR_RESERVE).unwrap();
+                    wb.append(&[0x15, 0x30, 0x01, 0x03, 1, 2, 3, 0x25, 0x02, 0x11, 0x22, 0x18, 0xff]).unwrap();
+                    hdr.encode(test_only_crypto(), None, 0, &mut wb).unwrap();
+                    wb.as_slice().to_vec()
+                };
+                tr.ev(json!({"ev": "Garbage", "i": i, "kind": kind, "t": sim::now_ms()}));
+                Step::Inject { src: i, dst: 0, data }
+            }
             "Mark" => {
                 tr.ev(json!({"ev": "Mark", "what": op["what"], "t": sim::now_ms()}));
                 Step::Poll
@@ -546,7 +630,8 @@ pub fn run_scenario(sc: &Scenario<'_>, tr: &mut Trace) -> End {
     }
     tr.ev(json!({"ev": "End", "how": format!("{:?}", end), "left": left, "n_plain": left_count(&left, "plain"), "n_pase": left_count(&left, "pase"), "n_case": left_count(&left, "case"),
                  "n_reserved": left.iter().filter(|l| l["reserved"] == true).count(), "n_exch": left.iter().map(|l| l["exchanges"].as_u64().unwrap()).sum::<u64>(),
-                 "marker": snap.pase.session_timeout.is_some(), "fillers_alive": fillers_alive, "busy_fillers": sc.fill_busy, "busy_fillers_alive": busy_fillers_alive,
+                 "marker": snap.pase.session_timeout.map(|(exp, _)| exp > sim::now_ms()).unwrap_or(false),
+                 "left_idle": left.iter().all(|l| l["reserved"] == false && l["exchanges"] == 0), "fillers_alive": fillers_alive, "busy_fillers": sc.fill_busy, "busy_fillers_alive": busy_fillers_alive,
                  "cancelled": n_cancelled.get(), "window_open": snap.pase.window_open, "t": sim::now_ms()}));
     drop(held);
     end
